@@ -72,6 +72,60 @@ func buildDest(path string, p CopyPair, srcPath string, now int64) (bool, error)
 		return true, modifyFile(path, p.DestWrites, now)
 	case "random":
 		return true, buildFile(path, FileSpec{L: p.Src.L, Writes: p.DestWrites}, now)
+	case "near-equal":
+		// a copy of the source in which every value is replaced by a neighbouring one: the next float up or
+		// down, a relative 1e-12 away, an infinity where the source is finite - different values all the same
+		if err := buildFile(path, p.Src, now); err != nil {
+			return true, err
+		}
+		src, err := readArchives(srcPath, p.Src.L, 0, now, now)
+		if err != nil {
+			return true, err
+		}
+		var near []SlotWrite
+		for a := len(p.Src.L.Archives) - 1; a >= 0; a-- {
+			r := src[a]
+			if r.Nil || r.Err != nil {
+				continue
+			}
+			for i, v := range r.S.Values {
+				if v != v {
+					continue
+				}
+				var nv float64
+				switch (i + a) % 4 {
+				case 0:
+					nv = math.Nextafter(v, math.Inf(1))
+				case 1:
+					nv = math.Nextafter(v, math.Inf(-1))
+				case 2:
+					nv = v * (1 + 1e-12)
+					if nv == v {
+						nv = math.Nextafter(v, math.Inf(1))
+					}
+				default:
+					nv = math.Inf(1)
+					if math.IsInf(v, 1) {
+						nv = math.MaxFloat64
+					}
+				}
+				near = append(near, SlotWrite{Arch: a, T: r.S.From + int64(i)*r.S.Step, V: F64(nv)})
+			}
+		}
+		// coarsest first, so that the finer writes' propagation is overwritten by nothing: re-apply coarser ones last
+		if err := modifyFile(path, near, now); err != nil {
+			return true, err
+		}
+		var again []SlotWrite
+		for _, w := range near {
+			if w.Arch > 0 {
+				again = append(again, w)
+			}
+		}
+		for i, j := 0, len(again)-1; i < j; i, j = i+1, j-1 {
+			again[i], again[j] = again[j], again[i]
+		}
+		return true, modifyFile(path, again, now)
 	case "coarser-equal":
 		// equal to the source in every coarser archive, different in finer slots: apply the
 		// source's writes, perturb archive 0, then restore archives 1.. from the source's content
@@ -488,7 +542,7 @@ func genCopyPair(t *rapid.T, l Layout, now int64, rel string, allowCopyNaNVals b
 		nanPct = 10
 	}
 	p.Src = genSpec(t, l, now, valGeneral, nanPct)
-	p.DestMode = rapid.SampledFrom([]string{"absent", "fresh", "same", "perturbed", "perturbed", "random", "coarser-equal", "coarser-equal"}).Draw(t, "destMode")
+	p.DestMode = rapid.SampledFrom([]string{"absent", "fresh", "same", "perturbed", "perturbed", "random", "coarser-equal", "coarser-equal", "near-equal"}).Draw(t, "destMode")
 	switch p.DestMode {
 	case "perturbed", "random", "coarser-equal":
 		p.DestWrites = genWrites(t, l, now, valGeneral, 0)
